@@ -91,6 +91,7 @@ impl Server {
                 self.art_requests.push(line.clone());
                 let off: usize = String::from_utf8_lossy(parts[parts.len() - 1]).parse().unwrap();
                 let embedded = parts[0] == b"readpicture";
+                let source = if parts[1] == b"song" { source } else { 3 };
                 // source: 0 embedded, 1 file (readpicture empty), 2 file (readpicture ACK 5), 3 nothing, 4 readpicture ACK 52
                 if embedded {
                     if source == 2 { self.send(b"ACK [5@0] {readpicture} nope\n"); return; }
